@@ -16,12 +16,14 @@ KEXP_FAMS = ["sse", "avx"]
 
 def place(rng, nt=False):
     if nt:
-        return "a0"
+        return "g" if rng.random() < 0.08 else "a0"
     r = rng.random()
     if r < 0.35:
         return "e"
     if r < 0.5:
         return "s"
+    if r < 0.56:
+        return "g"          # straddling a multiple of 4 GiB (64-byte aligned start)
     return "a%d" % rng.choice([0, 1, 8, 15, 16, 31, 63, rng.randrange(64)])
 
 
